@@ -3,14 +3,14 @@ From V Require Import Prelude.Base Prelude.PyInt Prelude.PySlice Prelude.PyStr M
 From V Require Import Proofs.RpcLib Proofs.RpcKernels Proofs.RpcPdu.
 
 (* for _ in range(len items): a = unpack1(view); view = view[adv a:]; acc.append(a)   over   pack1 a1 ++ pack1 a2 ++ .. ++ rest *)
-Lemma for_range_items {A} (unpack1 : bytes -> res A) (pack1 : A -> bytes) (nrm : A -> A) (adv : A -> Z) (ok : A -> bool) :
-  (forall a rest, ok a = true -> unpack1 (pack1 a ++ rest) = Ok (nrm a)) ->
-  (forall a rest, ok a = true -> slice (Some (adv (nrm a))) None (pack1 a ++ rest) = rest) ->
+Lemma for_range_items_gen {A B} (unpack1 : bytes -> res A) (pack1 : B -> bytes) (dec : B -> A) (adv : A -> Z) (ok : B -> bool) :
+  (forall a rest, ok a = true -> unpack1 (pack1 a ++ rest) = Ok (dec a)) ->
+  (forall a rest, ok a = true -> slice (Some (adv (dec a))) None (pack1 a ++ rest) = rest) ->
   forall items fuel rest acc t, (length items <= fuel)%nat -> forallb ok items = true ->
   for_range fuel (len items)
     (fun '(view, acc) => let* a := unpack1 view in Ok ((slice (Some (adv a)) None view, acc ++ [a]), 0))
     (concat (map pack1 items) ++ rest, acc) t
-  = Ok ((rest, acc ++ map nrm items), t + len items).
+  = Ok ((rest, acc ++ map dec items), t + len items).
 Proof.
   intros Hu Ha. induction items as [|a items IH]; intros fuel rest acc t Hf Hok.
   - destruct fuel; cbn; rewrite app_nil_r, Z.add_0_r; reflexivity.
@@ -22,6 +22,7 @@ Proof.
     rewrite IH by (cbn in Hf; auto; lia). rewrite <- app_assoc. cbn [app map].
     replace (t + 1 + 0 + len items) with (t + (1 + len items)) by lia. reflexivity.
 Qed.
+Definition for_range_items {A} (unpack1 : bytes -> res A) (pack1 : A -> bytes) (nrm : A -> A) := for_range_items_gen unpack1 pack1 nrm.
 
 (* ---- SyntaxId ---- *)
 Lemma len_syntax_id_pack s : wf_syntax_id s = true -> len (syntax_id_pack s) = 20.
